@@ -183,6 +183,14 @@ func (e *qosEnv) direction(t fataler, c qosCase, dir string, wantRate uint64, wa
 			return false
 		}
 	}
+	// the neighbour address (last bit flipped) has no bucket: its packets must not be accounted to this one
+	if nb := (ip4{c.ip[0], c.ip[1], c.ip[2], c.ip[3] ^ 1}); nb != c.peer {
+		if _, hit, _ := run(nb, false); hit {
+			if !vstat.Fail(t, sig("qos.ipToKey~"+cmap+".key", "hit-by-neighbour-address"), "only %s has a %s bucket: a packet of %s is rate-limited by it", ipOf(c.ip), dir, ipOf(nb)) {
+				return false
+			}
+		}
+	}
 	return true
 }
 
